@@ -25,6 +25,13 @@ def strings(alphabet, maxlen):
 
 def search_inflection(failure):
     name = failure['obligation']
+    if 'call-site' in name or 'from_variant' in name:
+        # call-site obligations: really derived types, property names of the binding vs the keys serde_json writes
+        o = batch([{'op': 'binding_keys'}])[0]
+        for c in o.get('cases', []):
+            if not c.get('agree', True):
+                return {'request': {'op': 'binding_keys'}, 'result': c}
+        return None
     parts = name.split('.')
     rules = list(RULES)
     poss = ['field', 'variant']
@@ -61,8 +68,12 @@ def search_paths(failure):
             for i in files:
                 reqs.append({'op': 'import_path', 'from': 'bindings/' + f, 'import': 'bindings/' + i})
         reqs = reqs[:4000]
+        # components that differ only in letter case, or where one is a prefix of the other, are different directories
+        near = ['a/f.ts', 'A/f.ts', 'a/F.ts', 'é/f.ts', 'É/f.ts', 'ab/f.ts', 'a/b/f.ts', 'A/b/f.ts', 'a/B/f.ts', 'a /f.ts', 'f.ts', 'F.ts']
+        reqs += [{'op': 'import_path', 'from': 'bindings/' + f, 'import': 'bindings/' + i} for f in near for i in near]
     ups = ['../' * k + 'x.ts' for k in range(0, 8)]
     reqs += [{'op': 'absolute', 'path': p} for p in ups + list(_rel_paths(3))]
+    reqs += [{'op': 'absolute', 'path': '/' + p} for p in ['..', 'a/../..', 'a/../../b', '../a', 'a/..', 'a/./../b', '.', 'a/b/../../..', 'a/b/../../../c']]
     outs = batch(reqs)
     for rq, o in zip(reqs, outs):
         if not o.get('agree', True):
@@ -99,6 +110,22 @@ def search_export_history(failure):
                 got = run_history(steps)
                 if got.get('files') != want or any(r != 'ok' for r in got.get('results', [])):
                     return {'request': {'op': 'export_history', 'steps': steps}, 'result': {'files': got.get('files'), 'results': got.get('results'), 'expected_files': want, 'agree': False}, 'kind': 'history'}
+    # the export directory spelled with a `..` segment (TS_RS_EXPORT_DIR), entry points mixed: still one file, both declarations
+    for k1 in (('export',), ('export_all',)):
+        for k2 in (('export',), ('export_all',)):
+            for order in (['A', 'B'], ['B', 'A']):
+                steps = [[k1[0], order[0]], [k2[0], order[1]]]
+                got = run_history(steps, env_dir='x/../bindings')
+                if got.get('files') != want or any(r != 'ok' for r in got.get('results', [])):
+                    return {'request': {'op': 'export_history', 'steps': steps, 'env_dir': 'x/../bindings'}, 'result': {'files': got.get('files'), 'results': got.get('results'), 'expected_files': want, 'agree': False}, 'kind': 'history'}
+    # a file left by an earlier run (longer than what is written now, with a declaration that no longer exists) is replaced, not patched
+    stale = (want.get('bindings/shared.ts') or '') + '\nexport type Gone = { a_long_field_name_to_make_the_old_file_longer: string, another_one: number, };\n'
+    for order in (['A', 'B'], ['B', 'A']):
+        steps = [['write', 'bindings/shared.ts', stale]] + [['export_all', t] for t in order]
+        got = run_history(steps)
+        if got.get('files') != want:
+            return {'request': {'op': 'export_history', 'steps': steps}, 'result': {'files': got.get('files'), 'results': got.get('results'), 'expected_files': want, 'agree': False,
+                    'note': 'the first export of a process starts the file afresh'}, 'kind': 'history'}
     # types with dependencies: every order of the same calls must leave the same directory (C06), in particular
     # export(T) before export_all(T) must not stop the dependencies from being exported
     for h in ([['export', 'C'], ['export_all', 'C']], [['export', 'D'], ['export_all', 'D']], [['export', 'A'], ['export_all', 'C']],
@@ -166,10 +193,10 @@ def search(pid, unit, failure, seed):
 def rerun(rec):
     w = rec['witness']
     if w.get('kind') == 'history':
-        got = run_history(w['request']['steps']) if isinstance(w['request']['steps'], list) else {}
+        got = run_history(w['request']['steps'], env_dir=w['request'].get('env_dir')) if isinstance(w['request']['steps'], list) else {}
         want = w['result'].get('expected_files')
         print('replayed history on the current tree:', json.dumps(got.get('files'), ensure_ascii=False)[:600])
         return 1 if got.get('files') != want else 0
     o = batch([w['request']], tuple(w.get('features', ())))[0]
-    print('replayed on the current tree:', json.dumps(o, ensure_ascii=False))
+    print('replayed on the current tree:', json.dumps(o, ensure_ascii=False)[:3000])
     return 1 if not o.get('agree', True) else 0
